@@ -182,7 +182,7 @@ def walk (H : Bytes → Bytes) : List Node → Walk
         match node with
         | .leaf _ _ => .error
         | .branch p links =>
-          if links.contains (some child) then .ok h (hexDigitsOf (links.idxOf (some child)) ++ hexPath p ++ actual)
+          if links.contains (some child) then .ok h (hexPath p ++ hexDigitsOf (links.idxOf (some child)) ++ actual)
           else .unlinked
 
 /-- `_check_state_hash` -/
@@ -299,28 +299,6 @@ def PTree.trace : PTree → List Nat → List Nat
           | some (n, rest) =>
             if h : n < 16 then (if (ch ⟨n, h⟩).isEmpty then [] else n :: (ch ⟨n, h⟩).trace rest) else []
           | none => [])
-
-/-- the string the verifier's loop actually assembles from the visited nodes: as `trace`, except that each link
-    nibble is written *before* the path of the branch it leaves (`f'{formatted_link_index}{node.hex_path}{actual_path}'`) -/
-def PTree.codeTrace : PTree → List Nat → List Nat
-  | .empty, _ => []
-  | .leaf p _, _ => p
-  | .branch p ch, key =>
-    match stepKey p key with
-    | some (n, rest) =>
-      if h : n < 16 then (if (ch ⟨n, h⟩).isEmpty then p else n :: (p ++ (ch ⟨n, h⟩).codeTrace rest)) else p
-    | none => p
-
-/-- every branch that the proof leaves through a link (every visited branch but the last node) has an empty path;
-    under this condition `codeTrace` and `trace` coincide -/
-def PTree.EmptyAbove : PTree → List Nat → Prop
-  | .empty, _ => True
-  | .leaf _ _, _ => True
-  | .branch p ch, key =>
-    match stepKey p key with
-    | some (n, rest) =>
-      if h : n < 16 then ((ch ⟨n, h⟩).isEmpty = false → p = [] ∧ (ch ⟨n, h⟩).EmptyAbove rest) else True
-    | none => True
 
 /-- the lookup runs into an absent child of a branch all of whose ancestors (and itself) match the key -/
 def PTree.deadEnd : PTree → List Nat → Bool
